@@ -88,6 +88,10 @@ fn cmd_worker(args: &[String]) -> i32 {
         if only.as_ref().is_some_and(|o| o != sub.id) {
             continue;
         }
+        if only.is_none() && sub.id.ends_with("-fast") != std::env::var("SVCHECK_FAST_BUILD").is_ok() {
+            // the "-fast" sub-campaigns belong to the build without debug assertions / overflow checks
+            continue;
+        }
         let total = if tier == Tier::Quick { sub.quick } else { sub.thorough };
         // fixed split of the fixed amount of work
         let share = total / of + u64::from(idx < total % of);
